@@ -355,12 +355,40 @@ Open Scope string_scope.
 Open Scope nat_scope.
 Definition nl_char : ascii := Ascii.ascii_of_nat 10.
 Definition dec (n : nat) : string := NilEmpty.string_of_uint (Nat.to_uint n).
-(* int(tok) for plain decimal digit strings; tokens with a sign, '_' or non-ASCII digits are outside
-   the modelled domain *)
+(* digits only *)
 Definition parse_nat (s : string) : option nat :=
   match s with
   | EmptyString => None
   | _ => option_map Nat.of_uint (NilEmpty.uint_of_string s)
+  end.
+(* Python int(tok) on ASCII text: [sign] digit (["_"] digit)*  (tokens carry no white space; non-ASCII
+   digits are outside the modelled domain).  A negative value is a legal Python int but not an atom index
+   of the model (nat): TNeg. *)
+Inductive tokval := TNat (n : nat) | TNeg | TBad.
+Definition is_digit_c (c : ascii) : bool :=
+  let n := Ascii.nat_of_ascii c in (48 <=? n) && (n <=? 57).
+Definition us_char : ascii := Ascii.ascii_of_nat 95.
+Definition plus_char : ascii := Ascii.ascii_of_nat 43.
+Definition minus_char : ascii := Ascii.ascii_of_nat 45.
+(* remove single underscores that stand between two digits; None if the digit string is malformed *)
+Fixpoint strip_us (s : string) (prev_digit : bool) : option string :=
+  match s with
+  | EmptyString => if prev_digit then Some EmptyString else None
+  | String c s' =>
+      if is_digit_c c then option_map (String c) (strip_us s' true)
+      else if Ascii.eqb c us_char then (if prev_digit then strip_us s' false else None)
+      else None
+  end.
+Definition parse_unsigned (s : string) : option nat :=
+  match strip_us s false with Some d => parse_nat d | None => None end.
+Definition parse_int (s : string) : tokval :=
+  match s with
+  | String c r =>
+      if Ascii.eqb c plus_char then match parse_unsigned r with Some n => TNat n | None => TBad end
+      else if Ascii.eqb c minus_char then
+        match parse_unsigned r with Some 0 => TNat 0 | Some _ => TNeg | None => TBad end
+      else match parse_unsigned s with Some n => TNat n | None => TBad end
+  | EmptyString => TBad
   end.
 
 Definition line (s : string) : string := s ++ String nl_char EmptyString.
@@ -373,13 +401,22 @@ Definition save_one (br : rearr) : string :=
   line "fbonds" ++ concat_map bond_line (fst br) ++ line "bbonds" ++ concat_map bond_line (snd br) ++ line "end".
 Definition save (brs : list rearr) : string := concat_map save_one brs.
 
-(* `for line in file` : pieces between newlines (the newline itself is white space for split() and
-   irrelevant for `in`; a final empty piece is a line without any effect) *)
+(* `for line in file` (text mode, universal newlines): pieces between line breaks, a break being
+   "\n", "\r" or "\r\n" (the break itself is white space for split() and irrelevant for `in`; a final
+   empty piece is a line without any effect) *)
+Definition cr_char : ascii := Ascii.ascii_of_nat 13.
 Fixpoint split_nl_aux (s : string) (cur : string) : list string :=
   match s with
   | EmptyString => [cur]
-  | String c s' => if Ascii.eqb c nl_char then cur :: split_nl_aux s' EmptyString
-                   else split_nl_aux s' (cur ++ String c EmptyString)
+  | String c s' =>
+      if Ascii.eqb c nl_char then cur :: split_nl_aux s' EmptyString
+      else if Ascii.eqb c cr_char then
+        match s' with
+        | String c2 s'' => if Ascii.eqb c2 nl_char then cur :: split_nl_aux s'' EmptyString
+                           else cur :: split_nl_aux s' EmptyString
+        | EmptyString => cur :: split_nl_aux s' EmptyString
+        end
+      else split_nl_aux s' (cur ++ String c EmptyString)
   end.
 Definition split_nl (s : string) : list string := split_nl_aux s EmptyString.
 
@@ -407,33 +444,48 @@ Fixpoint contains (p s : string) : bool :=
   is_prefix p s || match s with EmptyString => false | String _ s' => contains p s' end.
 
 Record lstate := mkL { l_block : bool; l_fb : list edge; l_bb : list edge; l_out : list rearr }.
-(* one iteration of the loop :196-218; None = ValueError from int() *)
-Definition load_step (st : lstate) (ln : string) : option lstate :=
+Inductive lerr := ValueErr     (* int() raised ValueError *)
+               | NegIndex.    (* a negative integer was read: legal in Python, outside the model's nat indices *)
+(* one iteration of the loop :196-218.  int() is applied to the two tokens in order *)
+Definition load_step (st : lstate) (ln : string) : lstate + lerr :=
   let blk := if contains "fbonds" ln then true else l_block st in
   let blk := if contains "bbonds" ln then false else blk in
-  let st1 :=
+  let st1 : lstate + lerr :=
     match tokens ln with
-    | [a; b] => match parse_nat a, parse_nat b with
-                | Some i, Some j =>
-                    Some (if blk then mkL blk (l_fb st ++ [(i, j)]) (l_bb st) (l_out st)
-                          else mkL blk (l_fb st) (l_bb st ++ [(i, j)]) (l_out st))
-                | _, _ => None
+    | [a; b] => match parse_int a, parse_int b with
+                | TBad, _ => inr ValueErr
+                | _, TBad => inr ValueErr
+                | TNat i, TNat j =>
+                    inl (if blk then mkL blk (l_fb st ++ [(i, j)]) (l_bb st) (l_out st)
+                         else mkL blk (l_fb st) (l_bb st ++ [(i, j)]) (l_out st))
+                | _, _ => inr NegIndex
                 end
-    | _ => Some (mkL blk (l_fb st) (l_bb st) (l_out st))
+    | _ => inl (mkL blk (l_fb st) (l_bb st) (l_out st))
     end in
   match st1 with
-  | None => None
-  | Some s => if contains "end" ln
-              then Some (mkL (l_block s) [] [] (l_out s ++ [(l_fb s, l_bb s)]))
-              else Some s
+  | inr e => inr e
+  | inl s => if contains "end" ln
+             then inl (mkL (l_block s) [] [] (l_out s ++ [(l_fb s, l_bb s)]))
+             else inl s
   end.
-Fixpoint load_lines (ls : list string) (st : lstate) : option (list rearr) :=
+Fixpoint load_lines (ls : list string) (st : lstate) : list rearr + lerr :=
   match ls with
-  | [] => Some (l_out st)
+  | [] => inl (l_out st)
   | ln :: rest => match load_step st ln with
-                  | None => None
-                  | Some st' => load_lines rest st'
+                  | inr e => inr e
+                  | inl st' => load_lines rest st'
                   end
   end.
-Definition load (text : string) : option (list rearr) :=
+Definition load (text : string) : list rearr + lerr :=
   load_lines (split_nl text) (mkL false [] [] []).
+
+(* get_bond_rearrangs :36-37 : if a file {name}_bond_rearrangs.txt exists its content is returned
+   without looking at reactant or product.  `cache` = the text of that file if present. *)
+Definition get_bond_rearrangs_cached (cache : option string)
+           (iso_b : graph -> graph -> bool) (mv : nat -> nat)
+           (nl : rearr -> nat) (rings : rearr -> list nat) (skip : bool)
+           (r p : graph) (n_atoms_p : nat) : outcome + lerr :=
+  match cache with
+  | Some text => match load text with inl l => inl (Ok l) | inr e => inr e end
+  | None => inl (get_bond_rearrangs iso_b mv nl rings skip r p n_atoms_p)
+  end.
